@@ -35,6 +35,96 @@ class SUM:
         return out.ret and same(out.value, sum(flat(args)))
 
 
+@contract('hotxlfp.formulas.mathtrig:PRODUCT', props=['C11'])
+class PRODUCT:
+    args = dict(args=NUMS)
+    no_native = True
+
+    def post(args, out):
+        return out.ret and same(out.value, stat('product', flat(args)))
+
+
+NUMS_OR_ERRORS = ARGS(NUMBER | ERR, minlen=1)
+
+
+def has_error_item(args):
+    return exists(0, len(args), lambda j: is_err(args[j]))
+
+
+def is_error_among(args, out):
+    # the outcome is an error value that occurs among the items (returned, or raised for call_function to turn into the value)
+    if out.ret:
+        return is_err(out.value) and exists(0, len(args), lambda j: is_err(args[j]) and same(args[j], out.value))
+    return out.exc == 'XLError' and exists(0, len(args), lambda j: is_err(args[j]) and same(args[j], out.err))
+
+
+@contract('hotxlfp.formulas.mathtrig:SUM', props=['C11'])
+class SUM_error_item:
+    # "an error value among the items makes the result that error": any number of items, the error(s) anywhere among them
+    args = dict(args=NUMS_OR_ERRORS)
+
+    def pre(args):
+        return has_error_item(args)
+
+    def post(args, out):
+        return is_error_among(args, out)
+
+
+@contract('hotxlfp.formulas.mathtrig:PRODUCT', props=['C11'])
+class PRODUCT_error_item:
+    args = dict(args=NUMS_OR_ERRORS)
+
+    def pre(args):
+        return has_error_item(args)
+
+    def post(args, out):
+        return is_error_among(args, out)
+
+
+@contract('hotxlfp.formulas.statistical:AVERAGE', props=['C11'])
+class AVERAGE_error_item:
+    args = dict(args=NUMS_OR_ERRORS)
+
+    def pre(args):
+        return has_error_item(args)
+
+    def post(args, out):
+        return is_error_among(args, out)
+
+
+@contract('hotxlfp.formulas.statistical:MIN', props=['C11'])
+class MIN_error_item:
+    args = dict(args=NUMS_OR_ERRORS)
+
+    def pre(args):
+        return has_error_item(args)
+
+    def post(args, out):
+        return is_error_among(args, out)
+
+
+@contract('hotxlfp.formulas.statistical:MAX', props=['C11'])
+class MAX_error_item:
+    args = dict(args=NUMS_OR_ERRORS)
+
+    def pre(args):
+        return has_error_item(args)
+
+    def post(args, out):
+        return is_error_among(args, out)
+
+
+@contract('hotxlfp.formulas.statistical:MEDIAN', props=['C11'])
+class MEDIAN_error_item:
+    args = dict(args=NUMS_OR_ERRORS)
+
+    def pre(args):
+        return has_error_item(args)
+
+    def post(args, out):
+        return is_error_among(args, out)
+
+
 @contract('hotxlfp.formulas.statistical:MAX', props=['C11'])
 class MAX:
     args = dict(args=NUMS)
@@ -139,7 +229,8 @@ class MAXIFS:
     bounded_args = dict(sum_args=SEQ(NUMBER, minlen=1, maxlen=1))
     inline_callees = ['parse_criteria']
     no_native = True
-    timeout_s = 200
+    timeout_s = 300
+    solver_timeout_ms = 45000      # the two quantified inv.keep obligations take 5-15 s each on an idle machine
 
     def pre(sum_args, criteria):
         return len(criteria[0]) == len(sum_args)
